@@ -11,6 +11,7 @@
      parseidx <hex>     -> as parse, or PANIC | OUTOFFUEL
      needsquoteidx <hex>-> true|false | PANIC | OUTOFFUEL
      ismarkeridx <hex>  -> M <name> <after> | PANIC
+     formatidx <comment> (<name> <data>)* -> <hex> | PANIC   (x/tools Format, statement level)
    the model's own property statements, in executable form (TxtarHolds.v):
      holds <hex>        -> true|false   (c03_holds_on)
      holds14 <hex>      -> true|false   (c14_holds_on)
@@ -68,6 +69,7 @@ let () = serve (function
   | ["spaces"; lo; hi] -> spaces (int_of_string lo) (int_of_string hi)
   | ["encode"; r] -> let r = n_of_int (int_of_string r) in
       "S " ^ string_of_bool (is_scalar r) ^ " " ^ hex_of_bytes (encode_rune r)
+  | "formatidx" :: r -> show_res hex_of_bytes (format_idx (archive_of r))
   | ["parseidx"; x] -> show_res show_archive (parse_idx (bytes_of_hex x))
   | ["needsquoteidx"; x] -> show_res string_of_bool (needs_quote_idx (bytes_of_hex x))
   | ["ismarkeridx"; x] -> show_mres (is_marker_idx (bytes_of_hex x))
